@@ -817,12 +817,15 @@ package server
 // ---------------------------------------------------------------- shard-assignment dispatcher (C18)
 
 // Registering a client for assignment updates never returns with the dispatcher's mutex
-// held (it would stop every later registration and every later update).
+// held (it would stop every later registration and every later update). The client enters the
+// subscriber table in the same critical section in which the assignments it is sent first were
+// read: no update can fall between the two and be lost for this client (critical .. mapupdate).
 //
 //@ func shardAssignmentDispatcher.RegisterForUpdates
 //@ property C18
 //@ trusted
 //@ releaseslock
+//@ critical filterByNamespace#0 .. mapupdate(clients)
 //@ modifies *
 //@ note trusted body (streams, channels, select): only the structural obligation is checked
 
